@@ -1,5 +1,36 @@
-From PV Require Import Lib.Base Model.Prng Model.Core.
-Open Scope Q_scope.
-Theorem C06_placeholder_pvalue_def : forall c H reps, perm_pvalue c H reps = (qn H + qn c) / (qn reps + qn c).
-Proof. reflexivity. Qed.
-Print Assumptions C06_placeholder_pvalue_def.
+(* C06 -- seeded runs share draws: the sequence of rearrangements depends on the tape (seed) and on the
+   sizes only.  Statements only; proofs in Proofs/CoreProofs.v, Proofs/RearrangeProofs.v.
+   (Reproducibility under equal seeds and isolation from numpy's global state are decided on the
+   implementation by the correspondence run; in the model they hold by construction: the tape is the
+   only source of randomness.) *)
+From PV Require Import Lib.Base Model.Prng Model.Core Proofs.CoreProofs.
+From mathcomp Require Import all_ssreflect.
+From PV Require Import Proofs.RearrangeProofs.
+
+(* two_sample / two_sample_shift: for any two statistics, any two potential-outcome tables and group sizes, the
+   same tape yields the same index rearrangements in every repetition and leaves the same tape *)
+Theorem C06_two_sample_draws_independent_of_data : forall s s' pot pot' nx nx' reps rr t,
+  match core_loop s pot nx rr reps t, core_loop s' pot' nx' rr reps t with
+  | Ok (_, a, t1), Ok (_, a', t2) => a = a' /\ t1 = t2
+  | Err e, Err e' => e = e'
+  | _, _ => False
+  end.
+Proof. intros. apply core_loop_data_independent. Qed.
+Print Assumptions C06_two_sample_draws_independent_of_data.
+
+Theorem C06_one_sample_draws_independent_of_data : forall s s' z z', length z = length z' -> forall reps t,
+  match one_loop s z reps t, one_loop s' z' reps t with
+  | Ok (_, a, t1), Ok (_, a', t2) => a = a' /\ t1 = t2
+  | Err e, Err e' => e = e'
+  | _, _ => False
+  end.
+Proof. exact one_loop_data_independent. Qed.
+Print Assumptions C06_one_sample_draws_independent_of_data.
+
+(* corr / spearman_corr / k_sample: relabelling the values (f) commutes with the rearrangements: two variables
+   on the same units see the same re-pairings/relabellings under one tape, and use the tape equally *)
+Theorem C06_permute_shares_draws : forall (T U : Type) (f : T -> U) (x : seq T) reps t,
+  perm_loop (map f x) reps t =
+  match perm_loop x reps t with Ok at' => Ok (map (map f) at'.1, at'.2) | Err e => Err e end.
+Proof. exact perm_loop_map. Qed.
+Print Assumptions C06_permute_shares_draws.
